@@ -128,6 +128,14 @@ static void f_segments(int n) {
   printf("K reset\nK map %llu %llu 1\n", U(base), U(MI_SEGMENT_SIZE));
   mi_segment_t* s = (mi_segment_t*)base;
   for (int it = 0; it < n; it++) {
+    if (it > 0 && it % 250 == 0) {
+      // a fresh mapping now and then: the page-state history the model has to carry stays short
+      _mi_os_free_ex(base, MI_SEGMENT_SIZE, true, memid);
+      base = (uint8_t*)_mi_os_alloc_aligned(MI_SEGMENT_SIZE, MI_SEGMENT_ALIGN, true, false, &memid);
+      if (base == NULL) { fprintf(stderr, "cannot map a segment\n"); exit(2); }
+      printf("K reset\nK map %llu %llu 1\n", U(base), U(MI_SEGMENT_SIZE));
+      s = (mi_segment_t*)base;
+    }
     rnd_cfg();
     const long delay = mi_option_get(mi_option_purge_delay);
     const size_t info = 1 + prng_below(&G, 2);
@@ -586,8 +594,8 @@ int main(int argc, char** argv) {
   if (mode[0] == 'F') {
     int thorough = (argc > 3 ? atoi(argv[3]) : 0);
     mi_option_set(mi_option_arena_reserve, 0);
-    f_segments(thorough ? 30000 : 2500);
-    f_arenas(thorough ? 30000 : 2500);
+    f_segments(thorough ? 25000 : 2500);
+    f_arenas(thorough ? 25000 : 2500);
   }
   else if (mode[0] == 'T') {
     long delay = (argc > 3 ? atol(argv[3]) : 10);
